@@ -18,11 +18,11 @@ type miniEval struct {
 	pk      *packages.Package
 	env     map[string]int64
 	call    func(call *ast.CallExpr) (int64, bool)
-	hook    func(x ast.Expr) (int64, bool) // consulted first for every expression
+	hook    func(x ast.Expr) (int64, bool)           // consulted first for every expression
 	tuple   func(call *ast.CallExpr) ([]int64, bool) // results of a multi-value call
 	rng     func(x ast.Expr) ([]int64, bool)         // elements of a non-constant range operand
 	maps    map[string]map[int64]bool                // sets / maps held in plain variables, by key
-	steps   int                            // loop iterations executed (bounded)
+	steps   int                                      // loop iterations executed (bounded)
 	unknown string
 	effects []string // assignments to anything that is not a plain variable, in program order
 }
@@ -32,6 +32,7 @@ const (
 	miniReturn
 	miniBreak
 	miniContinue
+	miniLabelBreak // a labelled break: leaves every enclosing switch and the labelled loop
 )
 
 func b2i(b bool) int64 {
@@ -369,7 +370,7 @@ func (e *miniEval) run(stmts []ast.Stmt) (status int, rets []int64) {
 				if st == miniReturn {
 					return st, r
 				}
-				if st == miniBreak {
+				if st == miniBreak || st == miniLabelBreak {
 					break
 				}
 				if s.Post != nil {
@@ -391,7 +392,7 @@ func (e *miniEval) run(stmts []ast.Stmt) (status int, rets []int64) {
 						if st == miniReturn {
 							return st, r
 						}
-						if st == miniBreak {
+						if st == miniBreak || st == miniLabelBreak {
 							stop = true
 						}
 						if stop || e.unknown != "" {
@@ -422,7 +423,7 @@ func (e *miniEval) run(stmts []ast.Stmt) (status int, rets []int64) {
 				if st == miniReturn {
 					return st, r
 				}
-				if st == miniBreak {
+				if st == miniBreak || st == miniLabelBreak {
 					stop = true
 				}
 				if stop || e.unknown != "" {
@@ -433,7 +434,7 @@ func (e *miniEval) run(stmts []ast.Stmt) (status int, rets []int64) {
 			switch s.Tok {
 			case token.BREAK:
 				if s.Label != nil {
-					e.fail("labelled break")
+					return miniLabelBreak, nil
 				}
 				return miniBreak, nil
 			case token.CONTINUE:
